@@ -586,6 +586,10 @@ func (d *ubjDec) length() (int, error) {
 	if n < 0 {
 		return 0, fmt.Errorf("negative length")
 	}
+	if n > int64(^uint(0)>>1) {
+		// (32-bit builds) more than any input can back
+		return 0, errTrunc{}
+	}
 	return int(n), nil
 }
 
